@@ -720,7 +720,7 @@ def r10_accumulators_threaded(ctx):
                     ctx.ob('C17.R10', 'threaded|%s|bb%d%s' % (b0.nroot.replace(T, ''), bb, '' if b.nid == b.nroot else '|closure'), not wrong, b.loc(bb, t),
                            'recursive call of %s: every `&mut` parameter is handed on in its own position%s' % (
                                b0.nroot.split('::')[-1], '' if not wrong else ' — NOT: parameter(s) %s receive the caller\'s parameter(s) %s' % ([k for k, _ in wrong], [v for _, v in wrong])))
-    ctx.floor('C17.R10', 'recursive calls of walkers with two or more `&mut` parameters', n, 8)
+    ctx.floor('C17.R10', 'recursive calls of walkers with two or more `&mut` parameters', n, 1)
 
 
 def r11_lifetime_names_are_fresh(ctx):
